@@ -752,6 +752,21 @@ def work_C06(run, rng, budget):
             if s != s0 or sf != s0:
                 run.fail("non-identity-data-changes-the-string", f"line endings {eol!r}: {s0!r} vs {s!r} (text) / {sf!r} (file)",
                          {"mol": mol_repr(m), "texts": [base_text, text], "strings": [s0, s, sf]})
+            corr_file(run, text)
+            # a different terminator after every line
+            mtext, merged = mixed_eol_text(ls, rng)
+            line, real, minfo = R.op_moltext(mtext)
+            run.corr(line, real, "observable")
+            gm = minfo.get("graph")
+            gmf = corr_file(run, mtext)
+            run.stats["eol:mixed" + ("-merged" if merged else "")] += 1
+            if not merged:
+                run.case(("C06mixed", mtext), True)
+                sm, _ = safe(tucan_of, gm) if gm is not None else (None, None)
+                smf, _ = safe(tucan_of, gmf) if gmf is not None else (None, None)
+                if sm != s0 or smf != s0:
+                    run.fail("non-identity-data-changes-the-string", f"mixed line terminators: {s0!r} vs {sm!r} (text) / {smf!r} (file)",
+                             {"mol": mol_repr(m), "texts": [base_text, mtext], "strings": [s0, sm, smf]})
         run.sample({"mol": mol_repr(m), "tucan": s0})
     # graph level: charges, coordinates, bond types, extra attributes
     for m in molecules(run, rng, 60 * budget, max_n=14):
@@ -859,6 +874,32 @@ def string_layer_ops(run, rng, count):
         run.corr(*R.op_floatok(t), "exact")
 
 
+def corr_file(run, text):
+    """the same text through a file on disk (graph_from_file: text mode, universal newlines) against the model"""
+    line, real, info = R.op_file(text)
+    if real is None:
+        run.stats["file:not-encodable"] += 1
+        return None
+    run.corr(line, real, "atom-order")
+    run.stats["file_ops"] += 1
+    return info.get("graph")
+
+
+def mixed_eol_text(lines, rng):
+    """every line with its own terminator (LF, CRLF, CR), the last one possibly with none.  Returns the text and whether a CR
+    terminator is directly followed by an empty line ended by LF (Python reads that pair as ONE terminator: the file then
+    states other lines, so nothing about the string follows)"""
+    out, merged = [], False
+    eols = [rng.choice(["\n", "\r\n", "\r"]) for _ in lines]
+    if lines and lines[-1] and rng.random() < 0.4:
+        eols[-1] = ""
+    for i, (l, e) in enumerate(zip(lines, eols)):
+        out.append(l + e)
+        if e == "\r" and i + 1 < len(lines) and lines[i + 1] == "" and eols[i + 1].startswith("\n"):
+            merged = True
+    return "".join(out), merged
+
+
 def exotic_stream(run, rng, count, renderer, opts=None):
     """renderings with unusual characters put in: the real reader and the model must agree on the outcome, whatever it is"""
     for _ in range(count):
@@ -868,6 +909,7 @@ def exotic_stream(run, rng, count, renderer, opts=None):
         line, real, _ = R.op_moltext(text)
         run.corr(line, real, "atom-order")
         run.stats["exotic"] += 1
+        corr_file(run, text)
 
 
 def all_elements_mol(rng):
@@ -913,6 +955,22 @@ def work_C07(run, rng, budget):
             if why:
                 key = "v3000-read-differs-from-file"
                 run.fail(key, why, {"mol": mol_repr(m), "text": text, "opts": info["opts"]})
+            if k == 0:
+                # the same file from disk, and with a different terminator after every line (text and disk)
+                gf = corr_file(run, text)
+                mtext, merged = mixed_eol_text(lines, rng)
+                line, real, minfo = R.op_moltext(mtext)
+                run.corr(line, real, "atom-order")
+                gmf = corr_file(run, mtext)
+                run.stats["eol:mixed" + ("-merged" if merged else "")] += 1
+                for how, gg in (("from disk", gf), ("mixed terminators", None if merged else minfo.get("graph")),
+                                ("mixed terminators, from disk", None if merged else gmf)):
+                    if how != "from disk" and merged:
+                        continue
+                    why = "reader raised" if gg is None else compare_read(gg, m)
+                    if why:
+                        run.fail("v3000-read-differs-from-file", f"{how}: {why}",
+                                 {"mol": mol_repr(m), "text": mtext if "mixed" in how else text, "opts": info["opts"]})
         run.sample({"mol": mol_repr(m), "text_head": text[:400]})
     # malformed stream: must be rejected with the library's exception or read consistently with the model
     for _ in range(40 * budget):
@@ -935,6 +993,7 @@ def work_C07(run, rng, budget):
         run.stats["malformed"] += 1
         line, real, _ = R.op_moltext("\n".join(ls))
         run.corr(line, real, "atom-order")
+        corr_file(run, rng.choice(["\n", "\r\n", "\r"]).join(ls))
     # star atoms in the forms the reader treats specially: a bond to a star atom without ENDPTS (polymers: ignored),
     # an ENDPTS list whose count is wrong, a bond between two star atoms, ENDPTS before / after other keywords
     for _ in range(6 * budget):
